@@ -125,6 +125,14 @@ class Ctx:
                 out.append(b.path)
                 self._inline_keep.add(b.path)
                 continue
+            if b.kind == 'AssocFn' and b.is_pub and not b.impl_trait and b.path in owner and b.arg_count == 1 and len(b.blocks) <= 4 and \
+                    b.local_ty(1).startswith('&') and not b.local_ty(1).startswith('&mut ') and b.path not in as_value and \
+                    all((t['func'].get('path') or '').rsplit('::', 1)[-1] in ('len', 'is_empty', 'deref', 'clone', 'as_ref', 'as_slice', 'capacity')
+                        for _bi, t in b.calls()):
+                # a read-only public accessor of a planner (`tree_size()`, `milestone_count()`): reading it is reading the field
+                out.append(b.path)
+                self._inline_keep.add(b.path)
+                continue
             if b.kind not in ('Fn', 'AssocFn') or b.is_pub or b.impl_trait or b.name == 'new' or b.path in mcs or \
                     b.path in as_value or len(b.blocks) > 400:
                 continue
